@@ -58,7 +58,8 @@ var guardTargets = []target{
 			"i":                  {"i", bv(64)},
 			"report.PowerOutput": {"p", bv(64)},
 		},
-		Locals: []string{}},
+		Locals: []string{"byteIndex", "bitIndex"},
+		Index:  []string{"bitfield"}},
 	{Name: "Gen.ImpactRound", Tags: "test", Pkg: "server", Func: "GCAServer.managedGetWattTimeIndexData",
 		Leaves: map[string]leaf{
 			"timeslot":                    {"ts", bv(32)},
@@ -98,8 +99,11 @@ var guardTargets = []target{
 			"timeslotOffset": {"off", bv(32)},
 			"i":              {"i", bv(32)},
 			"powerOutput":    {"pw", bv(32)},
+			"bitfield[i/8]":  {"bfByte", bv(8)},
+			"err != nil":     {"errB", "Bool"},
 		},
-		Locals: []string{"lastIndex"}},
+		Locals: []string{"lastIndex"},
+		Fields: []string{"Timeslot", "Energy"}},
 	{Name: "Gen.RateAllow", Tags: "", Pkg: "glow", Func: "RateLimiter.Allow",
 		Leaves: map[string]leaf{
 			"time.Now()":  {"now", bv(64)},
